@@ -4,7 +4,7 @@
    Section hypotheses of the lemmas (assumptions, not axioms): a backend batch is atomic (the database
    only ever is [apply_all] of a prefix of the batch list); executing a block is a function of state
    and block ([exec]); a header-hash page holds more than one hash. *)
-From NG Require Import Common.Tactics Node.Crash Node.CrashProofs Node.Stages Node.StagesProofs Node.StagesWitness Node.StagesMain Node.CrashGC Node.CrashGCProofs Node.CrashGCWitness Node.ResetExact.
+From NG Require Import Common.Tactics Node.Crash Node.CrashProofs Node.Stages Node.StagesProofs Node.StagesWitness Node.StagesMain Node.CrashGC Node.CrashGCProofs Node.CrashGCWitness Node.ResetExact Node.SyncRestore Node.SyncRestoreProofs.
 Open Scope N_scope.
 
 Section C02.
@@ -216,3 +216,23 @@ Theorem C02_reset_leftover :
         get (apply_all d (reset_batches St Rt ntx PS unroot fx h c hh 1 d)) (KMpt j) = Some VUnit.
 Proof. exact (@reset_leftover). Qed.
 Print Assumptions C02_reset_leftover.
+
+(* ---- restoring a received trie node during state synchronisation (Node/SyncRestore.v) ----
+   With every restoration reaching the database as one batch (repair F49), after any number of batches every
+   node whose record is present has everything its restoration writes (references for every path, contract
+   storage items) - which is what the restart assumes of a node it finds. *)
+Theorem C02_restore_atomic_complete :
+  forall (St Rt : Type) (effects : N -> list (key * option (val St Rt))) (nkey : N -> key),
+    (forall n k, ~ In (k, None) (effects n)) ->
+    (forall n m k v, In (k, v) (effects m) -> k = nkey n -> m = n) ->
+    forall ns k n, complete St Rt effects nkey (apply_all [] (firstn k (atomic_batches St Rt effects ns))) n.
+Proof. exact (@restore_atomic_complete). Qed.
+Print Assumptions C02_restore_atomic_complete.
+
+(* flushed write by write (the pinned code: H1 / F49) there is a boundary where the leaf is present and one
+   of its effects is not *)
+Theorem C02_restore_single_refuted :
+  sr_prefixes (single_batches N N sr_effects [1]) = [true; true; false; true] /\
+  sr_prefixes (atomic_batches N N sr_effects [1]) = [true; true].
+Proof. exact restore_single_refuted. Qed.
+Print Assumptions C02_restore_single_refuted.
